@@ -202,6 +202,9 @@ pub fn find_cycle(p: &Pos, c1: u16, c2: u16) -> Option<[Move; 4]> {
     None
 }
 pub fn rep_moves(r: &RepRecipe) -> Option<(Pos, Vec<Move>)> {
+    if let Some(g) = crate::props::blackbox::REPLAY_GAME.with(|x| x.borrow().clone()) {
+        return Some(g);
+    }
     let (start, mut moves) = play_walk(&r.walk)?;
     let mut p = start.clone();
     for m in &moves {
